@@ -258,6 +258,146 @@ def check_shared(txt):
     return bad
 
 
+# ---------------------------------------------------------------------------------------------
+# overlapped admissions (harness/server/c19_overlap_test.go): first connections of one user held inside
+# Manager.AuthenticateUser, then all sessions backlogged; one valve, and the bound for the user as a whole
+
+def gen_overlap(rng, quick, dense=False):
+    """-> [(id, line, meta)]"""
+    import itertools
+    out = []
+
+    def add(tag, up, down, sched, writers):
+        cid = 'O%d' % len(out)
+        line = 'O %s %d %d %s %s' % (cid, up, down, ','.join(sched), ' '.join('W:%d:%d:%d:%d:%d' % w for w in writers))
+        out.append((cid, line, dict(kind='O', dir='tx', rate=down, rx=up, tx=down, nsess=len(set(w[0] for w in writers)), tag=tag,
+                                    schedule=sched, writers=writers, line=line)))
+    back2 = [(0, 5000, 30, 0, 0), (1, 5000, 30, 0, 0)]
+    # exhaustive: two first connections, the first held in the user database; every order of releasing them,
+    # the second held too or not; + the sequential baseline
+    for second in ('s1a', 's1'):
+        for rel in itertools.permutations(('r0', 'r1')):
+            add('two-first-connections', 50000, 100000, ['s0a', second] + list(rel), back2)
+    add('sequential-baseline', 50000, 100000, ['s0', 's1'], back2)
+    add('first-released-before-second-arrives', 50000, 100000, ['s0a', 'r0', 's1a', 'r1'], back2)
+    # three first connections: every release order
+    for rel in itertools.permutations(('r0', 'r1', 'r2')):
+        add('three-first-connections', 50000, 200000, ['s0a', 's1a', 's2a'] + list(rel),
+            [(0, 1400, 60, 0, 0), (1, 1400, 60, 0, 0), (2, 1400, 60, 0, S // 2)])
+    # seeded: rates x number of connections x release orders x writers
+    for _ in range((6 if quick else 60) * (4 if dense else 1)):
+        n = rng.choice([2, 2, 3, 4])
+        down = rng.choice([20000, 100000, 10**6])
+        sched = ['s%d%s' % (i, 'a' if (i == 0 or rng.random() < 0.7) else '') for i in range(n)]
+        rel = ['r%d' % i for i in range(n)]
+        rng.shuffle(rel)
+        # a release may come before a later connection arrives
+        cut = rng.randrange(1, n + 1)
+        sched = sched[:cut] + rel[:1] + sched[cut:] + rel[1:]
+        small = max(40, min(5000, down // 20))
+        writers = [(i, rng.choice([small, small * 2, 1400]), rng.randrange(10, 40), rng.choice([0, 0, S // 100]), rng.choice([0, 0, S // 3])) for i in range(n)]
+        add('seeded', rng.choice([5000, 50000]), down, sched, writers)
+    return out
+
+
+def run_overlap(ctx, cases, tag='overlap'):
+    inp = '%s/%s.in' % (ctx.work, tag)
+    out = '%s/%s.go.out' % (ctx.work, tag)
+    open(inp, 'w').write('\n'.join(l for _, l, _ in cases) + '\n')
+    if os.path.exists(out):
+        os.remove(out)
+    rc, log, dt = vlib.go_test(ctx, 'server', 'TestVerifC19Overlap', files=['c19_overlap_test.go'], synctest=True,
+                               env=dict(VERIF_IN=inp, VERIF_OUT=out), timeout=600)
+    res = vlib.read_lines_by_id(out)
+    done = '#' in res and res.pop('#') == 'done'
+    return rc, log, res, done
+
+
+def parse_O(out):
+    head, _, ev = out.partition('|')
+    d = dict(tok.partition('=')[::2] for tok in head.split())
+    d['events'] = [tuple(int(x) for x in e.split(':')) for e in ev.split()]
+    return d
+
+
+def describe_schedule(sched):
+    res = []
+    for tok in sched:
+        i = tok[1:].rstrip('a')
+        if tok[0] == 's':
+            res.append('connection %s of the user (session id %d) calls GetUser then GetSession%s' % (
+                i, int(i) + 1, ' - held inside Manager.AuthenticateUser' if tok.endswith('a') else ''))
+        else:
+            res.append('connection %s is released (if it is held)' % i)
+    res.append('everything still held is released; every session is then backlogged by its writer(s)')
+    return res
+
+
+def eval_O(ctx, m, out, vcache):
+    """-> (oracle failures [(sig, msg, detail)], mismatch text or None, parsed)"""
+    d = parse_O(out)
+    if d.get('err', '-') != '-':
+        return [], 'overlap driver: ' + d['err'], d
+    orc = []
+    if d.get('valves') != '1' or d.get('records') != '1':
+        orc.append(('valve-not-shared:overlapped-admissions',
+                    'after the schedule %s the %d sessions of ONE user hold %s different valves (%s ActiveUser records): each session draws on its own token buckets; goroutine states after each schedule step (P held in the user database, L waiting for a lock, F finished): %s'
+                    % (','.join(m['schedule']), m['nsess'], d.get('valves'), d.get('records'), d.get('states')), dict(states=d.get('states'))))
+    mv = valve_of(None, m['rx'], m['tx'], vcache, ctx)
+    mism = None
+    if mv is None or d.get('tx') != ','.join(map(str, mv[1])):
+        mism = 'valve of the admitted user (DownRate %d): implementation tx=%s, model %s' % (m['tx'], d.get('tx'), mv and mv[1])
+    elif d['events']:
+        orc += oracle_S(m, d, mv[1])
+    return orc, mism, d
+
+
+def check_overlap(ctx, verdict, cases, res, tag='overlap'):
+    """runs the overlapped admissions, reports oracle failures (shortest schedule first); -> (n oracle failures new, stats)"""
+    rc, log, impl, done = run_overlap(ctx, cases, tag)
+    if rc != 0 or not done:
+        res['broken'].append(('Go driver TestVerifC19Overlap failed to build or run (rc=%d, finished=%s)' % (rc, done), log[-3000:]))
+    vcache = {}
+    fails, mism = [], []
+    nev = nint = 0
+    states = {}
+    for cid, line, m in cases:
+        if cid not in impl:
+            continue
+        orc, vm, d = eval_O(ctx, m, impl[cid], vcache)
+        nev += len(d['events']); nint += len(d['events']) * (len(d['events']) + 1) // 2
+        for st in (d.get('states') or '').split('/'):
+            states[st] = states.get(st, 0) + 1
+        if vm:
+            mism.append((line, vm))
+        for sig, what, det in orc:
+            fails.append((len(m['schedule']) + len(m['writers']), cid, sig, what, det, line, m, impl[cid]))
+    new = 0
+    seen = {}
+    for _, cid, sig, what, det, line, m, io in sorted(fails, key=lambda x: (x[0], x[1])):
+        key = sig.split(':')[0]
+        seen[key] = seen.get(key, 0) + 1
+        if seen[key] > 1 and not sig.startswith('burst-exceeds'):
+            continue
+        r = verdict.oracle_failure(sig, 'C19 oracle (overlapped first connections of one user): ' + what,
+                                   dict(overlap_line=line, schedule=describe_schedule(m['schedule']), detail=det, implementation=io[:1500],
+                                        how='python3 tools/check.py C19 --replay <this file>'))
+        if r == 'new':
+            new += 1
+    if mism and rc == 0:
+        res['broken'].append(('MakeValve for the admitted user vs model: %d overlap scenarios differ' % len(mism), '%s\n%s' % mism[0]))
+    return new, dict(scenarios=len(impl), events=nev, intervals_checked=nint, goroutine_state_patterns=states, oracle_failures=len(fails))
+
+
+def search(ctx, verdict, problems):
+    """A proof obligation (e.g. the generated atomicity obligation about GetUser) or the correspondence broke and no
+    rate violation was seen: run the overlapped admissions densely."""
+    res = dict(broken=[])
+    new, stats = check_overlap(ctx, verdict, gen_overlap(ctx.rng, ctx.quick(), dense=True), res, tag='search')
+    ctx.notes.append('search over overlapped admissions: %s' % stats)
+    return new > 0
+
+
 def valve_of(model, rx, tx, cache, ctx):
     key = (rx, tx)
     if key not in cache:
@@ -316,6 +456,7 @@ def correspondence(ctx, verdict, pr):
     sh = {}
     th = threading.Thread(target=lambda: sh.update(r=run_shared(ctx)))
     th.start()
+    ovcases = gen_overlap(ctx.rng, ctx.quick())
     rc, log, impl, done = run_go(ctx, lines, 'cases')
     if rc != 0 or not done:
         res['broken'].append(('Go driver TestVerifC19 failed to build or run (rc=%d, finished=%s)' % (rc, done), log[-3000:]))
@@ -387,6 +528,8 @@ def correspondence(ctx, verdict, pr):
             if gm.get(cid) != exp:
                 mism.append((meta[cid]['line'], 'release times ' + str(exp)[:600], 'model ' + str(gm.get(cid))[:600]))
     th.join()
+    ov_new, ov_stats = check_overlap(ctx, verdict, ovcases, res)
+    orc_new += ov_new
     src, slog, stxt = sh.get('r', (1, 'not run', ''))
     if src != 0:
         res['broken'].append(('Go driver TestVerifC19Shared failed (rc=%d)' % src, slog[-3000:]))
@@ -405,7 +548,8 @@ def correspondence(ctx, verdict, pr):
         traces_validated_against_impl=len(impl), mismatches=len(mism), oracle_failures=orc_new, known_finding_hits=known,
         input_distribution=dict(kinds=counts, scenarios=vlib.summarize_dist([t.rsplit('/', 1)[0] for t in tags])),
         scenario_events=nevents, intervals_checked=nint, deterministic_scenarios_compared_with_model=len(gexp),
-        shared_valve_driver=stxt.splitlines()[:12], exhaustive=False)
+        shared_valve_driver=stxt.splitlines()[:12], exhaustive=False,
+        overlapped_admissions=dict(ov_stats, what='first connections of one limited user held inside Manager.AuthenticateUser (UserManager seam) in every release order for 2 and 3 connections + seeded schedules; then all sessions backlogged under virtual time; oracle: one valve / one record, every interval of the merged event stream within the bound for the user as a whole'))
     return res
 
 
@@ -446,6 +590,23 @@ def fails(ctx, line, sig):
 
 def replay(ctx, verdict):
     r = ctx.replay
+    if r.get('overlap_line'):
+        line = r['overlap_line']
+        f = line.split()
+        sched = f[4].split(',')
+        writers = [tuple(int(x) for x in wtok.split(':')[1:]) for wtok in f[5:]]
+        m = dict(kind='O', dir='tx', rate=int(f[3]), rx=int(f[2]), tx=int(f[3]), nsess=len(set(wr[0] for wr in writers)), schedule=sched, writers=writers, line=line)
+        rc, log, impl, done = run_overlap(ctx, [(f[1], line, m)], 'replay')
+        print('scenario:', line)
+        for ln in describe_schedule(sched):
+            print('   ', ln)
+        if f[1] not in impl:
+            print(log[-2000:]); return 1
+        print('implementation:', impl[f[1]][:1500])
+        orc, vm, d = eval_O(ctx, m, impl[f[1]], {})
+        for sig, what, det in orc:
+            print('oracle:', sig, what)
+        return 1 if [o for o in orc if not o[0].startswith('burst-exceeds')] else 0
     line = r.get('line')
     if not line:
         print(json.dumps(r, indent=1)); return 0
